@@ -34,7 +34,7 @@ pub fn replay(input: &str, output: &str, trace: &str) {
         let g5 = au2rad(line["g5"].as_i64().unwrap());
         let s5 = line["sign5"].as_i64().unwrap() as i8;
         let expect = line["expect"].as_bool().unwrap();
-        let mut p = robots::geometry(robots::GEOMETRY_CLASSES[id % 7], &mut r);
+        let mut p = robots::geometry(robots::GEOMETRY_CLASSES[id % robots::GEOMETRY_CLASSES.len()], &mut r);
         p = robots::convention(p, r.gen_range(0..64), line["off"].as_str().unwrap(), &mut r);
         p.sign_corrections[4] = s5;
         let layers = solver::stack_for(line["stack"].as_str().unwrap(), &mut r);
@@ -89,7 +89,7 @@ pub fn record_cont(output: &str) {
     let mut r = rng(505);
     let n = if thorough() { 30_000 } else { 4_000 };
     for k in 0..n {
-        let mut p = robots::geometry(robots::GEOMETRY_CLASSES[k % 7], &mut r);
+        let mut p = robots::geometry(robots::GEOMETRY_CLASSES[k % robots::GEOMETRY_CLASSES.len()], &mut r);
         let offc = ["zero", "quarter", "random"][k % 3];
         p = robots::convention(p, r.gen_range(0..64), offc, &mut r);
         let stack_class = ["bare", "tool", "base+tool", "frame"][(k / 3) % 4];
@@ -119,7 +119,7 @@ pub fn record_cont(output: &str) {
         });
         let ans = solver::call(robot.kin.as_ref(), "inverse_continuing", &want.to_na(), &prev, 0.0);
         let base = json!({"ev": "cont", "kind": "zero", "realised": realised, "prev": au6(&prev), "sens_nrad": nano(sens), "other_singular": other_singular,
-            "s46_equal": p.sign_corrections[3] == p.sign_corrections[5], "offsets": offc, "stack": stack_class, "geom": robots::GEOMETRY_CLASSES[k % 7],
+            "s46_equal": p.sign_corrections[3] == p.sign_corrections[5], "offsets": offc, "stack": stack_class, "geom": robots::GEOMETRY_CLASSES[k % robots::GEOMETRY_CLASSES.len()],
             "sign5": p.sign_corrections[4], "params": robots::params_json(&p), "truth": au6(&q)});
         let mut ev = base;
         match ans {
